@@ -50,6 +50,10 @@ pub struct Local {
     pub tid: usize,
 }
 impl Local {
+    /// a scratch Local whose counters are frozen (used while shrinking / re-evaluating)
+    pub fn scratch() -> Local {
+        Local { frozen: true, ..Local::default() }
+    }
     #[inline]
     pub fn eval(&mut self) {
         if !self.frozen {
